@@ -3,6 +3,7 @@ package main
 import (
 	"encoding/json"
 	"fmt"
+	"go/types"
 	"os"
 	"path/filepath"
 	"runtime/debug"
@@ -148,20 +149,48 @@ func runRule(c *Ctx, rf RuleFunc) (res *RuleResult, fail string) {
 // runCheck is the driver for `bbverif check`.
 func runCheck(propID, tier, repoDir, outDir string, overlay map[string][]byte, quiet bool) int {
 	start := time.Now()
+	if propID == "all" {
+		// every property against one load of the program (used by the matrix tools; the registered
+		// commands run one property per process)
+		prog, err := LoadProgram(repoDir, overlay)
+		if err != nil {
+			fmt.Printf("ERROR: %v\n", err)
+			return 2
+		}
+		ids := make([]string, 0, len(registry))
+		for id := range registry {
+			ids = append(ids, id)
+		}
+		sort.Strings(ids)
+		worst := 0
+		for _, id := range ids {
+			if rc := runCheckWith(prog, id, tier, repoDir, outDir, overlay, quiet, time.Now()); rc > worst {
+				worst = rc
+			}
+		}
+		return worst
+	}
 	spec := registry[propID]
 	if spec == nil {
 		fmt.Printf("ERROR: no static rules registered for %s\n", propID)
-		return 2
-	}
-	known, err := loadKnown(outDir)
-	if err != nil {
-		fmt.Println("ERROR:", err)
 		return 2
 	}
 	prog, err := LoadProgram(repoDir, overlay)
 	if err != nil {
 		fmt.Printf("ERROR: %v\n", err)
 		writeEvidence(outDir, spec, tier, nil, nil, []string{err.Error()}, time.Since(start).Seconds(), nil)
+		return 2
+	}
+	return runCheckWith(prog, propID, tier, repoDir, outDir, overlay, quiet, start)
+}
+
+func runCheckWith(prog *Program, propID, tier, repoDir, outDir string, overlay map[string][]byte, quiet bool, start time.Time) int {
+	// per-property state: a property's verdict must not depend on which properties ran before it
+	anchoredFuncs = map[*types.Func]bool{}
+	spec := registry[propID]
+	known, err := loadKnown(outDir)
+	if err != nil {
+		fmt.Println("ERROR:", err)
 		return 2
 	}
 	theProgram = prog
